@@ -57,6 +57,7 @@ type Money struct{ Units, Nanos int64 }
 type Celsius float64
 type Tags []string
 type Ratio float64 // registered with a union whose null branch comes second
+type Stamp int64   // registered with a union whose non-null branch is an object (logical type)
 
 type tcase struct {
 	name string
@@ -88,6 +89,7 @@ func kinds() []reflect.Type {
 		gv.NullIntT, gv.NullBoolT, gv.NullFloatT, gv.NullStringT, gv.NullTimeT, reflect.PointerTo(gv.NullIntT), reflect.SliceOf(gv.NullStringT), reflect.MapOf(reflect.TypeOf(""), gv.NullFloatT),
 		reflect.TypeOf(Money{}), reflect.TypeOf(&Money{}), reflect.TypeOf([]Money(nil)), reflect.TypeOf(map[string]Money(nil)), reflect.TypeOf(Celsius(0)), reflect.TypeOf((*Celsius)(nil)), reflect.TypeOf(Tags(nil)), reflect.TypeOf([]Tags(nil)),
 		reflect.TypeOf(Ratio(0)), reflect.TypeOf((*Ratio)(nil)), reflect.TypeOf([]Ratio(nil)), reflect.TypeOf(map[string]*Ratio(nil)),
+		reflect.TypeOf(Stamp(0)), reflect.TypeOf((*Stamp)(nil)), reflect.TypeOf([]Stamp(nil)), reflect.TypeOf(map[string]Stamp(nil)),
 	}
 }
 
@@ -179,6 +181,9 @@ func initC15(c *fw.Ctx) {
 	rsch, _ := avro.SchemaFromString(`["double","null"]`)
 	avro.RegisterSchema(reflect.TypeOf(Ratio(0)), rsch)
 	registry[reflect.TypeOf(Ratio(0))] = ref.Union(ref.Prim("double"), ref.Prim("null"))
+	ss, _ := avro.SchemaFromString(`["null",{"type":"long","logicalType":"timestamp-micros"}]`)
+	avro.RegisterSchema(reflect.TypeOf(Stamp(0)), ss)
+	registry[reflect.TypeOf(Stamp(0))] = ref.Union(ref.Prim("null"), &ref.Schema{Type: "long", Logical: "timestamp-micros", ObjectForm: true})
 	ts, _ := avro.SchemaFromString(`["null","string"]`)
 	avro.RegisterSchema(reflect.TypeOf(Tags(nil)), ts)
 	registry[reflect.TypeOf(Tags(nil))] = ref.Union(ref.Prim("null"), ref.Prim("string"))
@@ -541,7 +546,7 @@ func init() {
 		ID:    "C15",
 		Level: "exploration",
 		Rule: func(tier string) string {
-			return "bounded-exhaustive enumeration of Go struct types (reflect.StructOf + static named/recursive types): 84 field types (every kind incl. unsupported ones, slices/maps/pointers/arrays of them, named struct, registered library and harness types) × 15 tag combinations as single-field structs; each field type in a 5-field struct with unexported/excluded siblings; each behind {struct, *struct, []struct, map[string]struct, []*struct} with omitempty; embedded exported/pointer/unexported structs; the same named struct in 2–3 positions; 7 self-referential shapes (own worker case each, 64 MiB stack)" + map[string]string{"thorough": "; all ordered pairs of field types", "quick": ""}[tier] + "; oracle = the documented mapping written as a total specification function (spec.SchemaFor) + structural validity + determinism (value and pointer call; and a third call after the caller has overwritten everything reachable from the first result) + Schema.Codec returns without panic; plus every history of length<=3 over {generate, register schema 1, register schema 2 for the inner named type} on fresh generic types, each generation compared with the mapping under the registrations in force at that moment; non-trivial = the mapping defines a verdict (schema or must-fail) for the type"
+			return "bounded-exhaustive enumeration of Go struct types (reflect.StructOf + static named/recursive types): 88 field types (every kind incl. unsupported ones, slices/maps/pointers/arrays of them, named struct, registered library and harness types) × 15 tag combinations as single-field structs; each field type in a 5-field struct with unexported/excluded siblings; each behind {struct, *struct, []struct, map[string]struct, []*struct} with omitempty; embedded exported/pointer/unexported structs; the same named struct in 2–3 positions; 7 self-referential shapes (own worker case each, 64 MiB stack)" + map[string]string{"thorough": "; all ordered pairs of field types", "quick": ""}[tier] + "; oracle = the documented mapping written as a total specification function (spec.SchemaFor) + structural validity + determinism (value and pointer call; and a third call after the caller has overwritten everything reachable from the first result) + Schema.Codec returns without panic; plus every history of length<=3 over {generate, register schema 1, register schema 2 for the inner named type} on fresh generic types, each generation compared with the mapping under the registrations in force at that moment; non-trivial = the mapping defines a verdict (schema or must-fail) for the type"
 		},
 		Assumptions: []string{
 			"Go arrays are not mentioned by the documented mapping: types containing them are exercised (no panic, determinism, validity) but their schema is not judged",
